@@ -23,6 +23,7 @@ CONSTANTS MAXLEN = %(maxlen)d
  SITES = {%(sites)s}
  DEPTH = %(depth)d
  BUILD = %(build)s
+ REASSIGN = %(reassign)s
 VIEW ViewSt
 PROPERTY Refines
 CHECK_DEADLOCK FALSE
@@ -33,7 +34,7 @@ SR = {"op": "SaveReopen"}
 
 
 def explore(work, name, **kw):
-    d = dict(maxlen=2, alpha=ALL, priors="1,2,3,4", sites=SITES3, depth=1, build="FALSE")
+    d = dict(maxlen=2, alpha=ALL, priors="1,2,3,4,5", sites=SITES3, depth=1, build="FALSE", reassign="TRUE")
     d.update(kw)
     cfg = os.path.join(work, "MC_TextBody_%s.cfg" % name)
     with open(cfg, "w") as f:
@@ -48,7 +49,7 @@ def explore(work, name, **kw):
     if not priors or not cases:
         raise E.MachineryError("MC_TextBody[%s] emitted %d cases / %d prior tables" % (name, len(cases), len(priors)))
     cc = r.coverage_counts()
-    taken = sum(cc.get(a, 0) for a in ASSIGN + ("AddPara", "AddRun", "AddBreak", "SetParaProp"))
+    taken = sum(cc.get(a, 0) for a in ASSIGN + ("AddPara", "AddRun", "AddBreak", "SetParaProp", "ReassignFrame", "ReassignPara"))
     if taken != len(cases):                                     # PrintT lines of concurrent workers must not have been lost or merged
         raise E.MachineryError("MC_TextBody[%s]: %d API transitions taken, %d scenarios parsed" % (name, taken, len(cases)))
     cases.sort(key=lambda h: json.dumps(h, sort_keys=True))     # TLC's output order is not deterministic with several workers
